@@ -374,6 +374,7 @@ def run(ck):
                         rec["status"] = "not-refused"
                     except Exception as e_:
                         rec["status"] = "refused: %r" % (e_,)
+                    line = "pure 7"          # the model: a refused request leaves every hidden field (protection flag, context depth) as it was
                 elif op in ("prop", "setref"):
                     if main_key is None:
                         ti = [k for k in sorted(tensors, key=repr) if not dict(k[1]).get("time_dependent")]
